@@ -1,0 +1,71 @@
+//! Verification hooks (only compiled with `--cfg json_syntax_verif`).
+use core::hash::{BuildHasher, Hasher};
+use std::cell::Cell;
+
+/// How the simulated hasher behaves.
+#[derive(Clone, Copy, PartialEq, Eq, Debug)]
+pub enum HashMode {
+	Good,
+	Collide,
+	LowBits(u8),
+	SameTag,
+	SameSlot,
+}
+
+thread_local! {
+	static CONFIG: Cell<(HashMode, u64, u64)> = Cell::new((HashMode::Good, 0, 0));
+}
+
+/// Sets the mode and seed used by hash builders created on this thread from
+/// now on, and resets the per-thread instance counter.
+pub fn set_hash_config(mode: HashMode, seed: u64) {
+	CONFIG.with(|c| c.set((mode, seed, 0)))
+}
+
+#[derive(Clone, Debug)]
+pub struct SimHashBuilder {
+	mode: HashMode,
+	seed: u64,
+}
+
+impl Default for SimHashBuilder {
+	fn default() -> Self {
+		CONFIG.with(|c| {
+			let (mode, seed, n) = c.get();
+			c.set((mode, seed, n + 1));
+			Self { mode, seed: seed ^ n.wrapping_mul(0x9e37_79b9_7f4a_7c15) }
+		})
+	}
+}
+
+pub struct SimHasher {
+	mode: HashMode,
+	inner: std::collections::hash_map::DefaultHasher,
+}
+
+impl BuildHasher for SimHashBuilder {
+	type Hasher = SimHasher;
+
+	fn build_hasher(&self) -> SimHasher {
+		let mut inner = std::collections::hash_map::DefaultHasher::new();
+		inner.write_u64(self.seed);
+		SimHasher { mode: self.mode, inner }
+	}
+}
+
+impl Hasher for SimHasher {
+	fn write(&mut self, bytes: &[u8]) {
+		self.inner.write(bytes)
+	}
+
+	fn finish(&self) -> u64 {
+		let h = self.inner.finish();
+		match self.mode {
+			HashMode::Good => h,
+			HashMode::Collide => 0,
+			HashMode::LowBits(k) => h & ((1u64 << k) - 1),
+			HashMode::SameTag => h & (u64::MAX >> 7),
+			HashMode::SameSlot => h & !(u64::MAX >> 7),
+		}
+	}
+}
